@@ -200,6 +200,9 @@ func (c *Ctx) c11DeleteExpired(b BK) {
 			}
 		}
 	}
+	if b.Sharded {
+		c.shardCoverage("R11.2", op, run.paths, false)
+	}
 	if nDel == 0 || nKeep == 0 {
 		r.Unknown("R11.2", op, fmt.Sprintf("vacuous: %d deleting iterations, %d keeping iterations", nDel, nKeep))
 	} else if !hasViolation(r.Obls, "R11.2", op) {
